@@ -235,6 +235,67 @@ def run(rep, tier):
                     extra = sorted(set(covered) - set(range(n)))
                     dup = sorted(set(x for x in covered if covered.count(x) > 1))
                     bad = "n=%d, chunk_size=%d: f is called for %s (never for %s, more than once for %s, out of range %s)" % (n, cs, covered[:12], miss[:6], dup[:6], extra[:6])
+        # ... also where the shape is close to the largest value of its type: every intermediate value of the bound
+        # arithmetic (only the operands C++ evaluates: the taken arm of ?:) is representable in the type it is computed in
+        ity = None
+        for _, _, e in fn.all_events():
+            if e.get("k") == "decl" and e.get("var") == iv:
+                ity = re.sub(r"\b(const|volatile)\b", "", str(e.get("type") or "")).strip()
+        RANGES = {"int": (-2**31, 2**31 - 1), "unsigned int": (0, 2**32 - 1), "long": (-2**63, 2**63 - 1), "unsigned long": (0, 2**64 - 1),
+                  "long long": (-2**63, 2**63 - 1), "unsigned long long": (0, 2**64 - 1), "short": (-2**15, 2**15 - 1), "unsigned short": (0, 2**16 - 1)}
+        if ity not in RANGES:
+            raise AnalysisBroken("%s: index type '%s' not recognised" % (fn.full[:80], ity))
+        lo_, hi_ = RANGES[ity]
+        big = hi_ if hi_ < 2**33 else 2**40 + 5
+
+        def walk(node, env):
+            node = strip(node)
+            if not isinstance(node, dict):
+                return
+            k_ = node.get("k")
+            if k_ == "cond":
+                walk(node["c"], env)
+                walk(node["t"] if _ev(node["c"], env) else node["f"], env)
+                return
+            if k_ == "bin":
+                walk(node["l"], env)
+                walk(node["r"], env)
+                if node["op"] in ("+", "-", "*"):
+                    v_ = _ev(node, env)
+                    if isinstance(v_, int) and not isinstance(v_, bool) and not (lo_ <= v_ <= hi_):
+                        raise OverflowError("%s = %d" % (T(node)[:70], v_))
+                return
+            for a_ in (node.get("args") or []):
+                walk(a_, env)
+            if node.get("e") is not None:
+                walk(node["e"], env)
+        for nthreads in (1, 4, 16):
+            cs = 1
+            while cs * nthreads * 8 < big:
+                cs *= 2
+            nchunks = (big + cs - 1) // cs
+            for k in (0, nchunks - 1):
+                env = {idx: k, "this->task_f->chunk_size": cs, "this->task_f->n": big}
+                try:
+                    for nm in decls:
+                        walk(_xl(fn, decls[nm]), env)
+                    env2 = dict(env)
+                    env2[iv] = _ev(_xl(fn, decls[iv]), env)
+                    walk(_xl(fn, lc.cond), env2)
+                    nsamp += 1
+                    # the last chunk ends at n
+                    if k == nchunks - 1:
+                        env3 = dict(env)
+                        env3[iv] = big - 1
+                        truth = bool(_ev(_xl(fn, lc.cond), env3))
+                        if [t for l, t, _ in lc.succ if l == ("true" if truth else "false")][0] not in loop_of(fn, lc.id) and bad is None:
+                            bad = "n=%d (%s), chunk_size=%d: the last chunk (index %d) does not reach n - 1" % (big, ity, cs, k)
+                except OverflowError as ex:
+                    if bad is None:
+                        bad = "n=%d (%s), %d workers, chunk_size=%d, chunk index %d: %s is not representable in %s - the bound wraps / overflows, the chunk is skipped or runs out of range" % (
+                            big, ity, nthreads, cs, k, ex, ity)
+                except (_Un, KeyError, IndexError) as ex:
+                    raise AnalysisBroken("%s: chunk bounds not evaluable near the type maximum (%s)" % (fn.full[:80], ex))
         n7 += 1
         if bad:
             rep.bad("C11.R7", fn, fn.loc, "chunk-tiling", "do_work_chunk does not call f exactly once for every index of [0, n): %s" % bad)
